@@ -97,6 +97,8 @@ def gen_case(run_seed: int, tier: str) -> dict[str, Any]:
         tree[docs[0] + "zzzz9999.partial"] = {"f": b2j(b"stale partial\n")}
     if w.random() < 0.15 and len(docs) >= 1:
         tree["link.md"] = {"l": docs[0]}
+    if w.random() < 0.12:
+        tree["hard.md"] = {"hl": docs[0]}  # second name of the same inode
 
     opts = corpus.gen_options(w)
     if w.random() < 0.85:
@@ -158,6 +160,9 @@ def gen_case(run_seed: int, tier: str) -> dict[str, Any]:
         "backup": backup,
         "uid_seed": k.getrandbits(32),
         "sweep_seed": k.getrandbits(32),
+        # some workloads start from files that are already formatted for this very invocation
+        # (the "nothing to change" path of an implementation is a path too)
+        "prefmt": inplace and k.random() < 0.2,
     }
 
 
@@ -458,6 +463,15 @@ def _exec_once(case: dict[str, Any], scratch: str, faults: list[dict[str, Any]],
 
 
 def _run_case(env: Env, case: dict[str, Any], scratch: str, want_trace: bool) -> dict[str, Any]:
+    if case.get("prefmt"):
+        ex_p, _ = _exec_once(dict(case, prefmt=False), scratch, [], {"listing": "native"}, None)
+        tree2 = dict(case["tree"])
+        for rel, ent in case["tree"].items():
+            if "f" in ent and not is_aux(rel):
+                got = simproc.read_bytes(os.path.join(ex_p.root, rel))
+                if got is not None:
+                    tree2[rel] = {"f": b2j(got)}
+        case = dict(case, tree=tree2, prefmt=False)
     out_rel = case["inv"].get("output")
     extra = [out_rel] if out_rel else []
     counters: dict[str, Any] = {"workloads": 1, "mode": {case["inv"]["mode"]: 1}}
